@@ -1,4 +1,5 @@
 //verif:pkg mosn.io/mosn/pkg/stream/xprotocol
+//verif:init mosn.io/mosn/pkg/protocol/xprotocol mosn.io/mosn/pkg/protocol/xprotocol/boltv2 mosn.io/mosn/pkg/protocol/xprotocol/bolt
 package xprotocol
 
 import (
@@ -6,6 +7,7 @@ import (
 
 	"mosn.io/api"
 	"mosn.io/mosn/pkg/protocol/xprotocol/bolt"
+	"mosn.io/mosn/pkg/protocol/xprotocol/boltv2"
 	"mosn.io/mosn/pkg/stream"
 	"mosn.io/mosn/pkg/types"
 	"mosn.io/mosn/pkg/zzverif/verif"
@@ -100,4 +102,94 @@ func VerifC02_ClientDispatch() {
 	verif.Assert(r2.header == p2.hv, "the second request's reply carries another exchange's header")
 	verif.Assert(r2.body == string(p2.body), "the second request's reply carries a body that is not its own (bytes of another exchange)")
 	verif.Cover("end")
+}
+
+type zzKeepRecv struct {
+	got  int
+	h    api.HeaderMap
+	data buffer.IoBuffer
+}
+
+func (r *zzKeepRecv) OnReceive(ctx context.Context, h api.HeaderMap, d buffer.IoBuffer, t api.HeaderMap) {
+	r.got++
+	r.h, r.data = h, d
+}
+func (r *zzKeepRecv) OnDecodeError(ctx context.Context, err error, h api.HeaderMap) {}
+
+// zzRepliesKeepTheirBytes: two requests in flight on one multiplexed client connection;
+// the upstream's two replies arrive in two reads into the same read buffer (the second
+// read reuses the storage of the first, as connection.doRead's ReadOnce does). The proxy
+// worker of the first request looks at its reply only afterwards: what it was handed -
+// header value, body, and the frame re-encoded for the client after a header was set -
+// must still be its own reply, no byte of the other exchange.
+func zzRepliesKeepTheirBytes(proto api.XProtocol, name api.ProtocolName, mk func(id uint32, hv string, body []byte) api.XRespFrame) {
+	ctx := zzStreamCtx()
+	sc := &streamConn{ctx: ctx, netConn: zzTConn{}, ctxManager: stream.NewContextManager(ctx),
+		protocol: proto, protocolName: name, clientCallbacks: zzTCallbacks{}, clientStreams: map[uint64]*xStream{}}
+	sc.ctxManager.Next()
+	r1, r2 := &zzKeepRecv{}, &zzKeepRecv{}
+	s1 := sc.NewStream(zzStreamCtx(), r1).(*xStream)
+	s2 := sc.NewStream(zzStreamCtx(), r2).(*xStream)
+	hv1, hv2 := verif.Str("reply1_header", 1), verif.Str("reply2_header", 1)
+	b1, b2 := verif.Bytes("reply1_body", 2), verif.Bytes("reply2_body", 2)
+	rb := buffer.NewIoBuffer(64)
+	for i := 0; i < 2; i++ {
+		var f api.XRespFrame
+		if i == 0 {
+			f = mk(uint32(s1.id), hv1, append([]byte(nil), b1...))
+		} else {
+			f = mk(uint32(s2.id), hv2, append([]byte(nil), b2...))
+		}
+		enc, err := proto.Encode(zzStreamCtx(), f)
+		verif.Assume(err == nil)
+		rb.Write(append([]byte(nil), enc.Bytes()...)) // the next read lands where the previous one was
+		sc.Dispatch(rb)
+		verif.Assert(rb.Len() == 0, "bytes of a complete frame left in the read buffer")
+	}
+	verif.Assert(r1.got == 1 && r2.got == 1, "each request must get exactly one reply")
+	if r1.got != 1 || r2.got != 1 {
+		return
+	}
+	for i, r := range []*zzKeepRecv{r1, r2} {
+		hv, body, id := hv1, b1, s1.id
+		if i == 1 {
+			hv, body, id = hv2, b2, s2.id
+		}
+		f, ok := r.h.(api.XRespFrame)
+		verif.Assert(ok, "the reply is not a response frame")
+		if !ok {
+			continue
+		}
+		verif.Assert(f.GetRequestId() == id, "a request was handed a reply with another id")
+		got, _ := r.h.Get("k")
+		verif.Assert(got == hv, "a reply's header value changed after the read buffer was reused (bytes of another exchange)")
+		verif.Assert(r.data != nil && string(r.data.Bytes()) == string(body), "a reply's body changed after the read buffer was reused (bytes of another exchange)")
+		// what goes to the client after a response header was added
+		r.h.Set("x", "y")
+		enc, err := proto.Encode(zzStreamCtx(), f)
+		verif.Assert(err == nil, "re-encode failed")
+		if err == nil {
+			back, derr := proto.Decode(zzStreamCtx(), buffer.NewIoBufferBytes(append([]byte(nil), enc.Bytes()...)))
+			verif.Assert(derr == nil && back != nil, "the re-encoded reply does not decode")
+			if bf, ok := back.(api.XRespFrame); ok && derr == nil {
+				verif.Assert(bf.GetData() != nil && string(bf.GetData().Bytes()) == string(body), "the reply re-encoded for the client carries a body that is not its own")
+			}
+		}
+	}
+	verif.Cover("end")
+}
+
+func VerifC02_BoltRepliesKeepTheirBytes() {
+	ctx := zzStreamCtx()
+	zzRepliesKeepTheirBytes((&bolt.XCodec{}).NewXProtocol(ctx), bolt.ProtocolName, func(id uint32, hv string, body []byte) api.XRespFrame {
+		return bolt.NewRpcResponse(id, bolt.ResponseStatusSuccess, zzHdr{"k": hv}, buffer.NewIoBufferBytes(body))
+	})
+}
+
+func VerifC02_BoltV2RepliesKeepTheirBytes() {
+	ctx := zzStreamCtx()
+	zzRepliesKeepTheirBytes((&boltv2.XCodec{}).NewXProtocol(ctx), boltv2.ProtocolName, func(id uint32, hv string, body []byte) api.XRespFrame {
+		r := boltv2.NewRpcResponse(id, bolt.ResponseStatusSuccess, zzHdr{"k": hv}, buffer.NewIoBufferBytes(body))
+		return r
+	})
 }
